@@ -9,6 +9,7 @@ publisher streams (the registration channel has been drained and holds the waker
 was polled), or idle (same, and nothing at all is outstanding).
 -/
 import SeliumModel.Lemmas.PubSubHealthy
+import SeliumModel.Lemmas.PubSubSettle
 import SeliumModel.Lemmas.ReqRepMore
 
 namespace Selium.Route
@@ -41,6 +42,51 @@ theorem c09_pubsub_no_unflushed_work (fuel : Nat) (oracle : List Nat) (s : PS α
 /-- Subscribers able to accept data never block it. -/
 theorem c09_pubsub_calm_never_blocked (fuel : Nat) (oracle : List Nat) (s : PS α) (h : CalmState s) :
     (pollFuel fuel oracle s).1 ≠ .blockedOnSink := pollFuel_calm fuel oracle s h
+
+/-- "An executor that only re-polls on wake-up still delivers and flushes everything." From any reachable state,
+    whatever the subscribers' and publishers' scripts (any mix of Ready / Pending / Err answers) and whatever
+    `StreamMap`'s random choices in each poll: a wake-driven executor (`runPolls`: the router is polled again
+    only because a child that answered Pending fired the waker it was given) needs at most `measure s` further
+    polls — the answers the peers still hold — until a poll ends idle or finished; and in the state that poll
+    leaves behind nothing is buffered, and every subscriber still registered has been handed, and had flushed,
+    every item accepted since its registration. No schedule of Pending answers makes the router sleep on undone
+    work or stay blocked for ever. -/
+theorem c09_pubsub_wake_driven_executor_delivers (history : List (Event α)) (orc : Nat → List Nat) :
+    ∃ n, n ≤ measure (exec history) ∧
+      ((pollFuel (work (runPolls orc n (exec history)) + 1) (orc n) (runPolls orc n (exec history))).1 = .idle ∨
+       (pollFuel (work (runPolls orc n (exec history)) + 1) (orc n) (runPolls orc n (exec history))).1 = .done) ∧
+      (pollFuel (work (runPolls orc n (exec history)) + 1) (orc n) (runPolls orc n (exec history))).2.1.buffered = none ∧
+      ∀ k ∈ (pollFuel (work (runPolls orc n (exec history)) + 1) (orc n) (runPolls orc n (exec history))).2.1.sinks,
+        k.got = (pollFuel (work (runPolls orc n (exec history)) + 1) (orc n) (runPolls orc n (exec history))).2.1.accepted.drop k.regAt ∧
+        k.flushed = k.got.length := by
+  obtain ⟨n, hn, hfin⟩ := runPolls_settles (exec history) orc
+  refine ⟨n, hn, hfin, ?_⟩
+  have hq := pollFuel_quiet (work (runPolls orc n (exec history)) + 1) (orc n) (runPolls orc n (exec history))
+    (by rcases hfin with h | h <;> simp [h])
+  have hi := pollFuel_inv (work (runPolls orc n (exec history)) + 1) (orc n) (runPolls orc n (exec history))
+    (runPolls_inv orc n _ (exec_inv history))
+  refine ⟨hq.1, fun k hk => ?_⟩
+  have := (hi.1 k hk).2
+  rw [hq.1] at this
+  simp only [Option.toList, List.append_nil] at this
+  exact ⟨this, hq.2 k hk⟩
+
+/-- every poll that ends blocked on a subscriber or waiting for publishers has used up one of the answers its
+    peers held; no poll adds one (the progress measure behind the theorem above) -/
+theorem c09_pubsub_pending_poll_makes_progress (fuel : Nat) (oracle : List Nat) (s : PS α) :
+    measure (pollFuel fuel oracle s).2.1 ≤ measure s ∧
+    (((pollFuel fuel oracle s).1 = .blockedOnSink ∨ (pollFuel fuel oracle s).1 = .waitingStreams) →
+      measure (pollFuel fuel oracle s).2.1 < measure s) := pollFuel_settle fuel oracle s
+
+/-! Non-vacuity: a subscriber that answers Pending twice to readiness and once to a flush, a publisher with a
+    Pending between two messages: the first poll ends blocked, the executor needs three more polls. -/
+def exSettle : PS Nat :=
+  { queue := [.sink { id := 0, readyQ := [.pending, .pending], flushQ := [.pending] }, .stream [.item 1, .pending, .item 2]] }
+
+example : measure exSettle = 9 ∧ (pollFuel 10 [] exSettle).1 = .blockedOnSink ∧
+    (pollFuel 10 [] (runPolls (fun _ => []) 4 exSettle)).1 = .idle ∧
+    (runPolls (fun _ => []) 4 exSettle).sinks.map (fun k => (k.got, k.flushed)) = [([1, 2], 2)] := by
+  decide +kernel
 
 /-! Non-vacuity: the schedule on which the unrepaired router parked with a registration still queued —
     an idle publisher, then a subscriber registers — now drains the channel. -/
@@ -85,6 +131,8 @@ end Selium.Route
 #print axioms Selium.Route.c09_pubsub_channel_drained
 #print axioms Selium.Route.c09_pubsub_no_unflushed_work
 #print axioms Selium.Route.c09_pubsub_calm_never_blocked
+#print axioms Selium.Route.c09_pubsub_wake_driven_executor_delivers
+#print axioms Selium.Route.c09_pubsub_pending_poll_makes_progress
 #print axioms Selium.Route.c09_reqrep_terminates
 #print axioms Selium.Route.c09_reqrep_iteration_progress
 #print axioms Selium.Route.c09_reqrep_channel_drained
